@@ -111,3 +111,27 @@ pub fn with_guarded_exact(bytes: &[u8], f: impl FnOnce(*const u8, usize) -> Tran
         classify(run_child(|| f(ptr, len).render().into_bytes()))
     })
 }
+
+/// Addresses with a special bit pattern: multiples of 4 GiB (low word zero),
+/// structures straddling the 2 GiB / 4 GiB marks, the first mappable page, a
+/// high user-space address. Results must not depend on where a structure lives.
+pub const SPECIAL_ADDRS: [usize; 9] = [
+    0x1_0000_0000,
+    0x1_0000_0000 - 8,
+    0x2_0000_0000,
+    0x8000_0000,
+    0x8000_0000 - 16,
+    0x100_0000_0000,
+    0x0001_0000,
+    0x7ff0_0000_0000,
+    0xffff_0000,
+];
+
+/// Runs `f` in a child on `bytes` copied to `addr` (None: the kernel did not
+/// grant a mapping there).
+pub fn at_address(addr: usize, bytes: &[u8], f: impl FnOnce(*const u8, usize) -> Transcript) -> Option<Boxed> {
+    let mut m = mb2_sandbox::FixedMap::new(addr, bytes.len().max(8))?;
+    let ptr = m.put(bytes);
+    let len = bytes.len();
+    Some(classify(run_child(|| f(ptr, len).render().into_bytes())))
+}
